@@ -70,6 +70,31 @@ def make_dict(cls, data):
     return json_format.MessageToDict(inst, preserving_proto_field_name=True)
 
 
+def make_native_dict(cls, data):
+    """(C03) the mapping a caller would write by hand: proto field names -> native python values
+    (ints, bytes, enum numbers, nested dicts/lists); only fields that are present."""
+    inst = make_instance(cls, data)
+    pb = cls.pb(inst) if (hasattr(cls, "pb") and hasattr(cls, "meta")) else inst
+
+    def val(fd, v):
+        if fd.message_type is not None:
+            return conv(v)
+        return v
+
+    def conv(m):
+        out = {}
+        for fd, v in m.ListFields():
+            if fd.message_type is not None and fd.message_type.GetOptions().map_entry:
+                vf = fd.message_type.fields_by_name["value"]
+                out[fd.name] = {k: val(vf, x) for k, x in v.items()}
+            elif fd.label == fd.LABEL_REPEATED:
+                out[fd.name] = [val(fd, x) for x in v]
+            else:
+                out[fd.name] = val(fd, v)
+        return out
+    return conv(pb)
+
+
 def _supports(fn, kw):
     import inspect
     try:
@@ -127,25 +152,66 @@ class GrpcLoopback:
         self.server.stop(0)
 
 
-def instrument(channel, kinds):
+def _record_timeouts(mc, path, sink):
+    """(C09) make a grpc multicallable record the `timeout=` each invocation carries (client side, exact).  The object
+    keeps its identity and its type's bases (api-core dispatches on isinstance(…, grpc.UnaryStreamMultiCallable)):
+    its class is swapped for a layout-compatible subclass overriding __call__/with_call/future."""
+    base = type(mc)
+
+    def rec(a, kw):
+        sink.append([path, kw["timeout"] if "timeout" in kw else (a[1] if len(a) > 1 else None)])
+
+    def make(name):
+        orig = getattr(base, name)
+
+        def f(self, *a, **kw):
+            rec(a, kw)
+            return orig(self, *a, **kw)
+        return f
+    ns = {"__slots__": ()}
+    for name in ("__call__", "with_call", "future"):
+        if hasattr(base, name):
+            ns[name] = make(name)
+    try:
+        mc.__class__ = type(base.__name__, (base,), ns)
+    except TypeError:
+        sink.append([path, "unrecordable:" + base.__name__])
+    return mc
+
+
+def instrument(channel, kinds, timeouts=None):
+    """`timeouts` (C09, optional): a list; when given every multicallable appends `[path, timeout]` per invocation"""
     for kind in ("unary_unary", "unary_stream", "stream_unary", "stream_stream"):
         orig = getattr(channel, kind)
 
         def wrapper(path, *a, _orig=orig, _kind=kind, **kw):
+            ser = kw.get("request_serializer", a[0] if len(a) > 0 else None)      # (C03) grpc._interceptor passes them positionally
+            des = kw.get("response_deserializer", a[1] if len(a) > 1 else None)
             kinds.append([path if isinstance(path, str) else path.decode(), _kind,
-                          getattr(kw.get("request_serializer"), "__qualname__", repr(kw.get("request_serializer")))[:80],
-                          getattr(kw.get("response_deserializer"), "__qualname__", repr(kw.get("response_deserializer")))[:80]])
-            return _orig(path, *a, **kw)
+                          getattr(ser, "__qualname__", repr(ser))[:80],
+                          getattr(des, "__qualname__", repr(des))[:80]])
+            mc = _orig(path, *a, **kw)
+            if timeouts is not None:
+                return _record_timeouts(mc, path if isinstance(path, str) else path.decode(), timeouts)
+            return mc
         setattr(channel, kind, wrapper)
 
 # ------------------------------------------------------------------ sleep interception (C09)
 
 
 class SleepTrap:
+    """records the sleeps api-core's retry asks for, without sleeping.
+    (C09, additive) `install(virtual_clock=True)`: a trapped sleep ADVANCES a virtual clock that api-core's
+    retry deadline (`time.monotonic` in retry_base / retry_unary / retry_unary_async) and
+    `TimeToDeadlineTimeout`'s clock read, so cumulative back-off counts against deadlines exactly as real
+    sleeping would.  `install(jitter=f)`: `random.uniform(a, b)` inside `exponential_sleep_generator`
+    returns `a + f*(b-a)` (f = 1.0: every sleep is its upper bound)."""
+
     def __init__(self):
         self.sleeps = []
+        self.offset = 0.0
 
-    def install(self):
+    def install(self, virtual_clock=False, jitter=None):
         import google.api_core.retry.retry_unary as ru
         import google.api_core.retry.retry_unary_async as rua
         trap = self
@@ -157,6 +223,12 @@ class SleepTrap:
             @staticmethod
             def sleep(s):
                 trap.sleeps.append(s)
+                if virtual_clock:
+                    trap.offset += s
+
+            @staticmethod
+            def monotonic():
+                return time.monotonic() + trap.offset
         ru.time = _T()
 
         class _A:
@@ -166,7 +238,30 @@ class SleepTrap:
             @staticmethod
             async def sleep(s):
                 trap.sleeps.append(s)
+                if virtual_clock:
+                    trap.offset += s
         rua.asyncio = _A()
+        # every clock api-core reads goes through THIS trap (offset stays 0.0 unless virtual_clock), so that
+        # sessions with and without a virtual clock can follow each other in one interpreter
+        import datetime
+        import random as _random
+        import google.api_core.retry.retry_base as rb
+        from google.api_core import timeout as _timeout, datetime_helpers
+        rb.time = _T()
+        rua.time = _T()
+
+        def vclock():
+            return datetime_helpers.utcnow() + datetime.timedelta(seconds=trap.offset)
+        _timeout.TimeToDeadlineTimeout.__init__.__defaults__ = (None, vclock)
+
+        class _R:
+            def __getattr__(self, n):
+                return getattr(_random, n)
+
+            @staticmethod
+            def uniform(a, b):
+                return _random.uniform(a, b) if jitter is None else a + jitter * (b - a)
+        rb.random = _R()
 
 # ------------------------------------------------------------------ calls
 
@@ -181,12 +276,21 @@ def build_args(call):
         kw["request"] = make_instance(req_cls, unb64(call["request_b64"]))
     elif mode == "request-dict":
         kw["request"] = make_dict(req_cls, unb64(call["request_b64"]))
+    elif mode == "request-native-dict":          # (C03)
+        kw["request"] = make_native_dict(req_cls, unb64(call["request_b64"]))
     elif mode == "request-none":
         pass
     if mode in ("kwargs", "mixed"):
         full = make_instance(req_cls, unb64(call["request_b64"]))
         for param, attrpath in call.get("kwargs", []):
             kw[param] = getpath(full, attrpath)
+            if call.get("plain_containers"):       # (C05) what a caller writes: a list / dict, not the wrapper view
+                import collections.abc as _abc
+                v = kw[param]
+                if isinstance(v, _abc.Mapping):
+                    kw[param] = dict(v)
+                elif isinstance(v, _abc.Sequence) and not isinstance(v, (str, bytes)):
+                    kw[param] = list(v)
     if call.get("stream_requests") is not None:
         items = [make_instance(req_cls, unb64(b)) for b in call["stream_requests"]]
         kw.pop("request", None)
@@ -200,14 +304,21 @@ def build_args(call):
         from google.api_core import retry as retries, exceptions as core_exceptions
         r = ck["retry"]
         pred = retries.if_exception_type(*[getattr(core_exceptions, n) for n in r.get("exceptions", [])])
-        kw["retry"] = retries.Retry(predicate=pred, initial=r.get("initial", 0.1), maximum=r.get("maximum", 1.0),
-                                    multiplier=r.get("multiplier", 2.0), timeout=r.get("deadline", 10.0))
+        rcls = retries.AsyncRetry if r.get("async") else retries.Retry          # (C09) async clients need AsyncRetry
+        kw["retry"] = rcls(predicate=pred, initial=r.get("initial", 0.1), maximum=r.get("maximum", 1.0),
+                           multiplier=r.get("multiplier", 2.0), timeout=r.get("deadline", 10.0))
     if "metadata" in ck:
         kw["metadata"] = [tuple(x) for x in ck["metadata"]]
     return args, kw
 
 
 def consume_sync(ret, how):
+    if how == "auto":        # (C03) whatever came back: None, a message, or an iterable of messages
+        if ret is None or is_protoplus(ret) or hasattr(ret, "SerializeToString"):
+            return canon_msg(ret)
+        if hasattr(ret, "__iter__") or hasattr(ret, "__next__"):
+            return {"kind": "stream", "items": [canon_msg(x) for x in ret]}
+        return canon_msg(ret)
     if how == "value":
         return canon_msg(ret)
     if how == "stream":
@@ -244,6 +355,12 @@ def consume_sync(ret, how):
 
 
 async def consume_async(ret, how):
+    if how == "auto":        # (C03)
+        if ret is None or is_protoplus(ret) or hasattr(ret, "SerializeToString"):
+            return canon_msg(ret)
+        if hasattr(ret, "__aiter__"):
+            return {"kind": "stream", "items": [canon_msg(x) async for x in ret]}
+        return canon_msg(ret)
     if how == "value":
         return canon_msg(ret)
     if how == "stream":
@@ -284,41 +401,49 @@ def op_grpc_session(o):
     import grpc
     srv = GrpcLoopback(o.get("script"))
     kinds = []
+    tmo = [] if o.get("record_timeouts") else None      # (C09) client-side per-invocation timeouts
     trap = SleepTrap()
     if o.get("trap_sleep"):
-        trap.install()
+        trap.install(virtual_clock=bool(o.get("virtual_clock")), jitter=o.get("jitter"))     # (C09) optional extras
     results = []
     try:
         if not o.get("async"):
             ch = grpc.insecure_channel(f"127.0.0.1:{srv.port}")
-            instrument(ch, kinds)
+            instrument(ch, kinds, tmo)
             transport = locate(o["transport"])(channel=ch)
             client = locate(o["client"])(transport=transport)
             for call in o["calls"]:
                 start, k0, s0 = len(srv.log), len(kinds), len(trap.sleeps)
+                t0_ = len(tmo) if tmo is not None else 0
                 if call.get("script"):
                     with srv.lock:
                         for p, q in call["script"].items():
                             srv.script[p] = list(q)      # a call's script replaces what earlier calls left over
                 try:
                     args, kw = build_args(call)
+                    rb = bool(kw["request"]) if call.get("probe_bool") and kw.get("request") is not None else None   # (C03)
                     ret = getattr(client, call["method"])(*args, **kw)
                     res = {"ok": consume_sync(ret, call.get("consume", "value"))}
+                    if rb is not None:
+                        res["request_bool"] = rb
                 except BaseException as e:  # noqa
                     res = {"raised": exc_name(e), "msg": str(e)[:300], "trace": traceback.format_exc()[-600:]}
                 res["server"] = _slice(srv.log, start)
                 res["stubs"] = kinds[k0:]
                 res["sleeps"] = trap.sleeps[s0:]
+                if tmo is not None:
+                    res["timeouts"] = tmo[t0_:]
                 results.append(res)
             ch.close()
         else:
             async def main():
                 ch = grpc.aio.insecure_channel(f"127.0.0.1:{srv.port}")
-                instrument(ch, kinds)
+                instrument(ch, kinds, tmo)
                 transport = locate(o["transport"])(channel=ch)
                 client = locate(o["client"])(transport=transport)
                 for call in o["calls"]:
                     start, k0, s0 = len(srv.log), len(kinds), len(trap.sleeps)
+                    t0_ = len(tmo) if tmo is not None else 0
                     if call.get("script"):
                         with srv.lock:
                             for p, q in call["script"].items():
@@ -332,22 +457,27 @@ def op_grpc_session(o):
                                 for it in items:
                                     yield it
                             kw["requests"] = agen()
+                        rb = bool(kw["request"]) if call.get("probe_bool") and kw.get("request") is not None else None   # (C03)
                         ret = getattr(client, call["method"])(*args, **kw)
                         for _ in range(3):      # client-streaming async methods need a double await
                             if asyncio.iscoroutine(ret) or hasattr(ret, "__await__"):
                                 ret = await ret
                         res = {"ok": await consume_async(ret, call.get("consume", "value"))}
+                        if rb is not None:
+                            res["request_bool"] = rb
                     except BaseException as e:  # noqa
                         res = {"raised": exc_name(e), "msg": str(e)[:300], "trace": traceback.format_exc()[-600:]}
                     res["server"] = _slice(srv.log, start)
                     res["stubs"] = kinds[k0:]
                     res["sleeps"] = trap.sleeps[s0:]
+                    if tmo is not None:
+                        res["timeouts"] = tmo[t0_:]
                     results.append(res)
                 await ch.close()
             asyncio.run(main())
     finally:
         srv.stop()
-    return {"calls": results, "wrapped": None}
+    return {"calls": results, "wrapped": None, "stubs_all": kinds}
 
 # ------------------------------------------------------------------ REST loopback
 
@@ -445,4 +575,68 @@ def op_wrapped(o):
     return {"wrapped": out}
 
 
-OPS = {"grpc_session": op_grpc_session, "rest_session": op_rest_session, "wrapped": op_wrapped}
+def _retry_entry(wrapped):
+    r = getattr(wrapped, "_retry", None)
+    t = getattr(wrapped, "_timeout", None)
+    ent = {"timeout": getattr(t, "_timeout", t) if t is not None else None, "retry": None}
+    if r is not None:
+        excs = None
+        for cell in (getattr(r._predicate, "__closure__", None) or []):
+            v = cell.cell_contents
+            if isinstance(v, tuple):
+                excs = sorted(x.__name__ for x in v)
+        ent["retry"] = {"initial": r._initial, "maximum": r._maximum, "multiplier": r._multiplier,
+                        "deadline": r._timeout, "exceptions": excs, "pytype": type(r).__name__}
+    return ent
+
+
+def op_wrapped_by_name(o):
+    """(C09) like `wrapped`, but keyed by the transport PROPERTY name (snake-case rpc name): every property of the
+    transport class whose value is a key of `_wrapped_methods` is reported.  Works for the sync gRPC transport,
+    the asyncio one (built inside an event loop on a grpc.aio channel) and REST."""
+    import grpc
+    cls = locate(o["transport"])
+
+    def table(transport):
+        out, unmatched = {}, 0
+        props = [n for n in dir(type(transport)) if not n.startswith("_") and isinstance(getattr(type(transport), n, None), property)]
+        wm = transport._wrapped_methods
+        seen = set()
+        for n in props:
+            try:
+                v = getattr(transport, n)
+                if v in wm:
+                    out[n] = _retry_entry(wm[v])
+                    seen.add(id(wm[v]))
+            except BaseException:  # noqa: properties like operations_client may need credentials
+                continue
+        unmatched = sum(1 for w in wm.values() if id(w) not in seen)
+        return {"wrapped": out, "entries": len(wm), "unmatched": unmatched}
+    kind = o.get("kind", "grpc")
+    if kind == "grpc":
+        ch = grpc.insecure_channel("127.0.0.1:1")
+        try:
+            return table(cls(channel=ch))
+        finally:
+            ch.close()
+    if kind == "grpc_asyncio":
+        async def main():
+            ch = grpc.aio.insecure_channel("127.0.0.1:1")
+            try:
+                return table(cls(channel=ch))
+            finally:
+                await ch.close()
+        return asyncio.run(main())
+    if kind == "rest":
+        from google.auth.credentials import AnonymousCredentials
+        return table(cls(host="127.0.0.1:1", url_scheme="http", credentials=AnonymousCredentials()))
+    raise ValueError(kind)
+
+
+OPS = {"wrapped_by_name": op_wrapped_by_name, "grpc_session": op_grpc_session, "rest_session": op_rest_session, "wrapped": op_wrapped}
+
+try:  # C14: sample execution ops live in their own file (additive hook)
+    import libhost_samples
+    OPS.update(libhost_samples.OPS)
+except ImportError:
+    pass
